@@ -39,6 +39,8 @@ from vlib.run import Distinct, Run, Samples
 TAKE = 64
 STRESS_TIMEOUT = 420     # s per helper invocation; only ever yields "inconclusive"
 TSAN_TIMEOUT = 600
+MIRI_TIMEOUT = {"quick": 1500, "thorough": 3000}
+TSAN_LOG_CAP = 1 << 20   # bytes of report text after which an instrumented run is stopped (it has shown enough)
 SCRATCH = None
 
 
@@ -118,8 +120,9 @@ def write_request(progs, cfg, name):
     return path
 
 
-def run_helper(cmd, timeout, env=None, cwd=None):
-    """-> dict(status ok|died|timeout, rc, out, err, wall)"""
+def run_helper(cmd, timeout, env=None, cwd=None, watch=None):
+    """-> dict(status ok|died|timeout|log-cap, rc, out, err, wall); watch = (log path prefix, cap
+    in bytes): the process is stopped once its sanitizer log exceeds the cap"""
     t0 = time.time()
     e = dict(os.environ)
     e.setdefault("TZ", "UTC")
@@ -128,16 +131,25 @@ def run_helper(cmd, timeout, env=None, cwd=None):
     out_path = os.path.join(scratch(), "out-%d-%d.txt" % (os.getpid(), threading.get_ident()))
     with open(out_path, "w") as fo, open(out_path + ".err", "w") as fe:
         p = subprocess.Popen(cmd, stdout=fo, stderr=fe, env=e, cwd=cwd, start_new_session=True)
-        try:
-            rc = p.wait(timeout=timeout)
-            status = "ok"
-        except subprocess.TimeoutExpired:
+        status = None
+        while status is None:
+            try:
+                rc = p.wait(timeout=1.0 if watch else max(0.1, timeout - (time.time() - t0)))
+                status = "ok"
+            except subprocess.TimeoutExpired:
+                if time.time() - t0 >= timeout:
+                    status = "timeout"
+                elif watch:
+                    d, pre = os.path.split(watch[0])
+                    size = sum(os.path.getsize(os.path.join(d, fn)) for fn in os.listdir(d) if fn.startswith(pre + "."))
+                    if size > watch[1]:
+                        status = "log-cap"
+        if status != "ok":
             try:
                 os.killpg(p.pid, signal.SIGKILL)
             except Exception:
                 p.kill()
             rc = p.wait()
-            status = "timeout"
     out = open(out_path, errors="replace").read()
     err = open(out_path + ".err", errors="replace").read()
     if status == "ok" and rc < 0:
@@ -301,28 +313,46 @@ def detector_stress(run, bins, chunks, acc, per_t):
 
 # ---- detector 2: ThreadSanitizer ---------------------------------------------------------------
 HASH = re.compile(r"::h[0-9a-f]{16}\b")
-FRAME = re.compile(r"^\s+#(\d+)\s+(.*?)\s+(\S*[/.]\S*?)(?::(\d+))?(?::(\d+))?\s+\((\S+?)\)(?:\s+\(BuildId: \w+\))?\s*$")
-FRAME2 = re.compile(r"^\s+#(\d+)\s+(.*?)\s+\((\S+?)\)(?:\s+\(BuildId: \w+\))?\s*$")
 ACCESS = re.compile(r"^\s+((?:Previous )?(?:[Aa]tomic )?(?:[Ww]rite|[Rr]ead)) of size (\d+)")
+FRAME = re.compile(r"^\s+#(\d+)\s+(.*?)\s*$")
+STD_CRATES = {"std", "core", "alloc", "__rustc", "compiler_builtins", "panic_unwind", "panic_abort", "unwind", "proc_macro",
+              "std_detect", "hashbrown_std", "rustc_demangle", "addr2line", "gimli", "object", "miniz_oxide", "adler2"}
+JAQ_CRATES = {"jaq_core", "jaq_std", "jaq_json", "jaq_fmts", "jaq_all", "jaq"}
 
 
-def origin(path):
-    """which code base a frame belongs to"""
-    if not path:
-        return "?"
-    if "/harness/src/" in path:
-        return "harness"
-    if path.startswith(build.REPO.rstrip("/") + "/") or re.search(r"/jaq-(core|std|json|fmts|all)/src/", path):
+def parse_frame(line):
+    """`#2 <jaq_std::regex::Flags>::regex <null> (jaqmon+0x59d8bb) (BuildId: ..)` -> (func, file)
+    (the release build has no line tables: file is `<null>`, a codegen-unit name or a path)"""
+    m = FRAME.match(line)
+    if not m:
+        return None
+    rest = re.sub(r"\s+\(BuildId: \w+\)\s*$", "", m.group(2))
+    rest = re.sub(r"\s+\(\S+\+0x[0-9a-f]+\)\s*$", "", rest)
+    if " " in rest:
+        func, where = rest.rsplit(" ", 1)
+    else:
+        func, where = rest, ""
+    return re.sub(r"\s*\(\.llvm\.\d+\)", "", HASH.sub("", func.strip())), where
+
+
+def origin(func):
+    """which code base a frame belongs to, by the crate its function lives in"""
+    m = re.match(r"^[<&(\s]*(?:dyn\s+|impl\s+)?([A-Za-z_][A-Za-z0-9_]*)::", func)
+    if not m:
+        return "rt"            # C runtime / sanitizer interceptors (free, memcpy, main, ...)
+    c = m.group(1)
+    if c in JAQ_CRATES:
         return "jaq"
-    if "/.cargo/registry/" in path or "/registry/src/" in path:
-        return "dep"
-    if "/rustc/" in path or "/library/" in path or "/rustlib/src/" in path:
+    if c == "jaqmon":
+        # the counting allocator is a pass-through on every allocation of every crate
+        return "rt" if func.lstrip("<").startswith("jaqmon::alloc::") else "harness"
+    if c in STD_CRATES:
         return "std"
-    return "other"
+    return "dep"
 
 
 def parse_tsan(text):
-    """-> list of report blocks {kind, stacks:[{what, frames:[(func, file, line)]}], summary, raw}"""
+    """-> list of report blocks {kind, stacks:[{what, frames:[(func, where)]}], summary, raw}"""
     blocks = []
     for raw in re.split(r"^={18}\s*$", text, flags=re.M):
         m = re.search(r"WARNING: ThreadSanitizer: ([^\n(]+?)\s*\(pid=\d+\)", raw)
@@ -338,15 +368,10 @@ def parse_tsan(text):
                 stacks.append(cur)
                 continue
             if cur is not None:
-                f = FRAME.match(line)
+                f = parse_frame(line)
                 if f:
-                    cur["frames"].append((HASH.sub("", f.group(2)), f.group(3), f.group(4) or ""))
-                    continue
-                f = FRAME2.match(line)
-                if f:
-                    cur["frames"].append((HASH.sub("", f.group(2)), "", ""))
-                    continue
-                if not line.strip():
+                    cur["frames"].append(f)
+                elif not line.strip():
                     cur = None
         sm = re.search(r"SUMMARY: ThreadSanitizer: (.*)", raw)
         blocks.append({"kind": kind, "stacks": stacks, "summary": sm.group(1).strip() if sm else "", "raw": raw.strip()[:6000]})
@@ -354,22 +379,61 @@ def parse_tsan(text):
 
 
 def tsan_key(b):
-    """first frames outside std (function names without hashes) of the two accesses"""
+    """innermost frames outside std / the C runtime (function names without hashes) of the two
+    accesses; origins = code bases seen on the two access stacks"""
     sites = []
     origins = set()
     for st in b["stacks"][:2]:
         site = None
-        for func, path, line in st["frames"]:
-            o = origin(path)
-            if o in ("jaq", "dep", "harness", "other") and site is None and func and not func.startswith("__tsan") \
-                    and not func.startswith("__interceptor"):
-                site = "%s[%s]" % (func, o)
-            if o != "?":
-                origins.add(o)
+        for func, _where in st["frames"]:
+            o = origin(func)
+            origins.add(o)
+            if site is None and o in ("jaq", "dep", "harness"):
+                site = "%s[%s]" % (func[:120], o)
         if site is None and st["frames"]:
-            site = st["frames"][0][0] + "[std]"
+            site = st["frames"][0][0][:120] + "[std]"
         sites.append(site or "?")
-    return "tsan:%s:%s" % (b["kind"], "|".join(sorted(set(sites)))), origins
+    return "tsan:%s:%s" % (b["kind"], " | ".join(sorted(set(sites)))), origins
+
+
+RACY = ("data race", "heap-use-after-free", "data race on vptr (ctor/dtor vs virtual call)",
+        "use of an invalid mutex (e.g. uninitialized or destroyed)", "double lock of a mutex",
+        "unlock of an unlocked mutex (or by a wrong thread)")
+
+
+def tsan_logs(prefix):
+    text = ""
+    for fn in sorted(os.listdir(scratch())):
+        if fn.startswith(prefix + "."):
+            text += open(os.path.join(scratch(), fn), errors="replace").read() + "\n"
+    return text
+
+
+def tsan_verdicts(run, reports, progs, info):
+    seen = {}
+    for b in reports:
+        key, origins = tsan_key(b)
+        seen.setdefault(key, {"count": 0, "block": b, "origins": origins})
+        seen[key]["count"] += 1
+    info["reports"] = len(reports)
+    info["distinct_reports"] = len(seen)
+    info["report_kinds"] = {}
+    for key, e in seen.items():
+        b = e["block"]
+        info["report_kinds"][b["kind"]] = info["report_kinds"].get(b["kind"], 0) + e["count"]
+        if b["kind"] not in RACY:
+            run.inconc("tsan:other-report:" + b["kind"])
+            run.notes.append("tsan non-race report: %s %s" % (key, b["summary"][:200]))
+        elif not (e["origins"] & {"jaq", "dep"}):
+            # both accesses in the helper's own code / std only: not about jaq
+            run.inconc("tsan:report-inside-the-helper-itself")
+            run.notes.append("tsan report without jaq/dependency frames: " + key)
+        else:
+            run.violation(key, {"detector": "tsan", "kind": b["kind"], "summary": b["summary"][:300], "seen": e["count"],
+                                "stacks": [{"what": st["what"], "frames": [f[0][:200] for f in st["frames"][:14]]}
+                                           for st in b["stacks"][:2]],
+                                "report": b["raw"][:4000], "cfg": b.get("cfg"),
+                                "replay_programs": [p["wire"] for p in progs]})
 
 
 def detector_tsan(run, progs, info, built):
@@ -397,18 +461,17 @@ def detector_tsan(run, progs, info, built):
         cfg = dict(cfg, seed=run.seed * 1000 + 500 + ci, take=TAKE, build="tsan")
         req = write_request(progs, cfg, "tsan-%d.json" % ci)
         logp = os.path.join(scratch(), "tsanlog-%d" % ci)
-        res = run_helper([path, "threads", req], timeout=TSAN_TIMEOUT, env={
+        res = run_helper([path, "threads", req], timeout=TSAN_TIMEOUT, watch=(logp, TSAN_LOG_CAP), env={
             "TSAN_OPTIONS": "halt_on_error=0 exitcode=66 report_signal_unsafe=0 history_size=4 second_deadlock_stack=1 log_path=" + logp})
-        text = ""
-        for fn in sorted(os.listdir(scratch())):
-            if fn.startswith("tsanlog-%d." % ci):
-                text += open(os.path.join(scratch(), fn), errors="replace").read() + "\n"
+        text = tsan_logs("tsanlog-%d" % ci)
         blocks = parse_tsan(text + "\n" + res["err"])
         for b in blocks:
             b["cfg"] = cfg
         reports += blocks
         ss = summaries(res["out"])
-        if res["status"] == "timeout":
+        if res["status"] == "log-cap":
+            info["stopped_at_log_cap"] = info.get("stopped_at_log_cap", 0) + 1
+        elif res["status"] == "timeout":
             run.inconc("tsan:timeout")
             run.notes.append("tsan invocation %d timed out after %d s (%d report blocks in its log)" % (ci, TSAN_TIMEOUT, len(blocks)))
         elif res["status"] == "died" and not blocks:
@@ -421,65 +484,37 @@ def detector_tsan(run, progs, info, built):
             run.notes.append("tsan exit 66, log: " + (text + res["err"])[-600:])
         if ss:
             judge(run, ss[0], progs, cfg, "tsan", acc)
+        if ss or blocks:
             info["invocations"] += 1
-    seen = {}
-    for b in reports:
-        key, origins = tsan_key(b)
-        seen.setdefault(key, {"count": 0, "block": b, "origins": origins})
-        seen[key]["count"] += 1
-    info["reports"] = len(reports)
-    info["distinct_reports"] = len(seen)
-    info["report_kinds"] = {}
-    for key, e in seen.items():
-        b = e["block"]
-        info["report_kinds"][b["kind"]] = info["report_kinds"].get(b["kind"], 0) + e["count"]
-        racy = b["kind"] in ("data race", "heap-use-after-free", "data race on vptr (ctor/dtor vs virtual call)",
-                             "use of an invalid mutex (e.g. uninitialized or destroyed)", "double lock of a mutex",
-                             "unlock of an unlocked mutex (or by a wrong thread)")
-        if racy and (e["origins"] & {"jaq", "dep", "std"}) and e["origins"] != {"harness"}:
-            only_harness = all(origin(p) in ("harness", "std", "?") for st in b["stacks"][:2] for (_f, p, _l) in st["frames"]) \
-                and any(origin(p) == "harness" for st in b["stacks"][:2] for (_f, p, _l) in st["frames"][:3])
-            if only_harness and not (e["origins"] & {"jaq", "dep"}):
-                run.inconc("tsan:report-inside-the-helper-itself")
-                run.notes.append("tsan report confined to the helper: " + key)
-                continue
-            run.violation(key, {"detector": "tsan", "kind": b["kind"], "summary": b["summary"], "seen": e["count"],
-                                "stacks": [{"what": st["what"], "frames": ["%s %s:%s" % f for f in st["frames"][:12]]}
-                                           for st in b["stacks"][:2]],
-                                "report": b["raw"][:4000], "cfg": b["cfg"],
-                                "replay_programs": [p["wire"] for p in progs]})
-        else:
-            run.inconc("tsan:other-report:" + b["kind"])
-            run.notes.append("tsan non-race report: %s %s" % (key, b["summary"]))
+    tsan_verdicts(run, reports, progs, info)
     info.update({k: acc.get(k, 0) for k in ("runs", "pulls", "switches", "overlapped_runs", "compiled_during", "mismatches")})
-    info["status"] = "ran" if info["invocations"] else "not run: no invocation of the instrumented helper completed"
+    info["status"] = "ran" if info["invocations"] else "not run: no invocation of the instrumented helper completed or reported"
     return time.time() - t0
 
 
 # ---- detector 3: Miri ----------------------------------------------------------------------------
-MIRI_PROGRAMS = [
-    # natives only + jaq-core's definitions (see `defs: core` in threads.rs); between them they go
-    # through bytes (slicing, concatenation), indexmap/hashbrown (objects), once_cell (lazy
-    # streams: foreach/limit/paths), Arc::make_mut on shared values (updates), num-bigint,
-    # the JSON printer/parser, regex compilation, sorting
-    ("miri.composite",
-     '[.[] | tojson], (.[0] |= "x"), {a: .[1:], (.[0] | tojson): 1}, [limit(3; foreach ($x[], .[]) as $y (0; . + 1; [$y, .]))], '
-     '($x | .[1].a += 1), (.[0] | ltrimstr("a") + "bc" | ., explode, (. / "b"), (tojson | fromjson)), '
-     '[paths], (map(tojson) | sort), [.[0] | matches("a+b"; "g")], (reduce range(1; 25) as $i (1; . * $i) | tostring), '
-     '(to_entries | from_entries | keys_unsorted), ([., $x] | group_by(length) | map(length)), (try error({a: $x}) catch .a[0])'),
-]
+# natives + jaq-core's definitions only (see `defs: core` in threads.rs). Between them the fragments go
+# through bytes (trimming, concatenation, splitting), indexmap/hashbrown (objects), once_cell (lazy
+# streams: foreach/limit), Arc::make_mut on values shared between the threads (updates on the shared
+# input and the shared global), the JSON printer/parser, sorting. One run costs Miri ~1 s per 100 us
+# of native execution, hence the small size.
+MIRI_QUICK = ('(.[0] |= "x"), {a: .[1:], (.[0] | tojson): 1}, [limit(2; foreach ($x[], .[]) as $y (0; . + 1; [$y, .]))], '
+              '($x | .[1].a += 1), (.[0] | ltrimstr("a") + "bc" | ., (. / "b")), (tojson | fromjson | sort)')
+MIRI_THOROUGH = ('[.[] | tojson], (.[0] |= "x"), {a: .[1:], (.[0] | tojson): 1}, [limit(3; foreach ($x[], .[]) as $y (0; . + 1; [$y, .]))], '
+                 '($x | .[1].a += 1), (.[0] | ltrimstr("a") + "bc" | ., explode, (. / "b"), (tojson | fromjson)), '
+                 '[paths], (map(tojson) | sort), [.[0] | matches("a+b"; "g")], (reduce range(1; 25) as $i (1; . * $i) | tostring), '
+                 '(to_entries | from_entries | keys_unsorted), ([., $x] | group_by(length) | map(length)), (try error({a: $x}) catch .a[0])')
 
 
 def miri_workload(run):
     from vlib.codec import Obj, S
     x = [5, Obj([(S("a"), 2)]), S("é")]
     inputs = [[S("aab"), 1, None], [S("ab"), [1.5, Obj([(S("k"), 2 ** 70)])]], [S("xaaby"), S("aab")]]
-    progs = []
-    for name, prog in MIRI_PROGRAMS:
-        p = {"family": name, "prog": prog, "vars": [("x", x)], "inputs": inputs}
-        p["wire"] = G.wire([p])[0]
-        progs.append(p)
-    return progs
+    thorough = run.tier == "thorough"
+    p = {"family": "miri.composite", "prog": MIRI_THOROUGH if thorough else MIRI_QUICK, "vars": [("x", x)],
+         "inputs": inputs if thorough else inputs[:2]}
+    p["wire"] = G.wire([p])[0]
+    return [p]
 
 
 def parse_miri(text):
@@ -529,11 +564,15 @@ def detector_miri(run, info, built):
         run.inconc("miri:build-failed")
         return time.time() - t0
     progs = miri_workload(run)
-    nseeds = run.size(6, 32)
+    # quick: 4 scheduler seeds, small program, 2 inputs, one isolated run per input, no compile-while-running
+    # (one compilation under Miri costs ~20 s of CPU); thorough: 24 seeds, the larger program, 3 inputs, isolated
+    # runs twice before and twice after, and a thread that compiles (and runs) the program meanwhile
+    nseeds = run.size(4, 24)
     first = (run.seed * 64) % 4096
-    cfg = {"threads": 3, "reps": 1, "seed": run.seed + 1, "jitter": 1, "take": 40, "lockstep": True, "compile_during": True,
-           "compile_limit": 1, "share_values": True, "defs": "core", "build": "miri", "miri_seeds": [first, first + nseeds]}
-    res = run_miri(progs, cfg, timeout=900 if run.tier == "quick" else 2400)
+    cfg = {"threads": 3, "reps": 1, "seed": run.seed + 1, "jitter": 1, "take": 40, "lockstep": True,
+           "compile_during": run.tier == "thorough", "light": run.tier != "thorough", "compile_limit": 1, "share_values": True, "defs": "core", "build": "miri",
+           "miri_seeds": [first, first + nseeds]}
+    res = run_miri(progs, cfg, timeout=MIRI_TIMEOUT[run.tier])
     miri_judge(run, res, progs, cfg, info)
     return time.time() - t0
 
@@ -649,21 +688,16 @@ def detector_tsan_replay(run, progs, cfg, info):
         return
     req = write_request(progs, cfg, "tsan-replay.json")
     logp = os.path.join(scratch(), "tsanlog-r")
-    res = run_helper([path, "threads", req], timeout=1500,
+    res = run_helper([path, "threads", req], timeout=TSAN_TIMEOUT, watch=(logp, TSAN_LOG_CAP),
                      env={"TSAN_OPTIONS": "halt_on_error=0 exitcode=66 report_signal_unsafe=0 history_size=4 log_path=" + logp})
-    text = ""
-    for fn in sorted(os.listdir(scratch())):
-        if fn.startswith("tsanlog-r."):
-            text += open(os.path.join(scratch(), fn), errors="replace").read() + "\n"
     acc = {}
     for s in summaries(res["out"]):
         judge(run, s, progs, cfg, "tsan", acc)
     info["runs"] = acc.get("runs", 0)
-    for b in parse_tsan(text + "\n" + res["err"]):
-        key, origins = tsan_key(b)
-        if b["kind"] in ("data race", "heap-use-after-free") and origins & {"jaq", "dep", "std"}:
-            run.violation(key, {"detector": "tsan", "kind": b["kind"], "summary": b["summary"], "report": b["raw"][:4000],
-                                "cfg": cfg, "replay_programs": [p["wire"] for p in progs]})
+    blocks = parse_tsan(tsan_logs("tsanlog-r") + "\n" + res["err"])
+    for b in blocks:
+        b["cfg"] = cfg
+    tsan_verdicts(run, blocks, progs, info)
 
 
 # ---- main ----------------------------------------------------------------------------------------------
